@@ -5,7 +5,7 @@
         no numeric check at all, first bad element aborts with an error)
      object.NewExtendedSpatialID / ResetExtendedSpatialID / ID() / FieldParams() / accessors  (new_eid, Ids.print_eid, field_params)
      transform.ConvertExtendedSpatialIDToSpatialIDs                                           (expand_eid, record form expand_rec)
-     transform.GetVoxelIDfromSpatialID                                                        (voxel_id; parse errors ignored, index panic)
+     transform.GetVoxelIDfromSpatialID                                                        (voxel_id; parse errors ignored, short input gives the empty list)
      ResetExtendedSpatialID applied repeatedly to one object                                  (reset_seq)
    Theorems: both round trips, length/order, arity error, parse ∘ ID, normalisation, and for the expansion: NoDup, target zoom = max h v,
    4^d resp. 2^d results, exact partition of the voxel's region (Voxel.inR), pairwise disjointness; soundness of the run-time checkers. *)
@@ -554,7 +554,7 @@ Proof.
 Qed.
 
 (* =====================================================================================================================
-   5. transform.GetVoxelIDfromSpatialID: [x, y, f] of an extended ID; conversion errors are discarded, short input panics
+   5. transform.GetVoxelIDfromSpatialID: [x, y, f] of an extended ID; conversion errors are discarded, short input gives []
    ===================================================================================================================== *)
 Definition parse_body (s : string) : string :=
   match s with String "+"%char r => match r with String "-"%char _ | String "+"%char _ => EmptyString | _ => r end | _ => s end.
@@ -575,27 +575,27 @@ Proof.
   rewrite parse_unfold. unfold parse_lenient. destruct (NilZero.int_of_string (parse_body s)) as [d|]; [|discriminate].
   cbv zeta. destruct (int64_ok (Z.of_int d)); [|discriminate]. now intros [= <-].
 Qed.
-(* None = the index expression ids[4] (or ids[1], ids[2]) is out of range: the Go function panics *)
-Definition voxel_id (s : string) : option (list Z) :=
+(* fewer than five fields: the empty slice (after the repair c5e2aa4; before it the index expression ids[4] panicked) *)
+Definition voxel_id (s : string) : list Z :=
   match split s with
-  | _ :: x :: y :: _ :: f :: _ => Some [parse_lenient x; parse_lenient y; parse_lenient f]
-  | _ => None
+  | _ :: x :: y :: _ :: f :: _ => [parse_lenient x; parse_lenient y; parse_lenient f]
+  | _ => []
   end.
-Theorem voxel_id_spec s i : parse_eid s = Some i -> voxel_id s = Some [ex i; ey i; ef i].
+Theorem voxel_id_spec s i : parse_eid s = Some i -> voxel_id s = [ex i; ey i; ef i].
 Proof.
   unfold parse_eid, voxel_id. destruct (split s) as [|a [|b [|c [|d [|e [|g r]]]]]]; try discriminate.
   destruct (parse a) eqn:Ea; [|discriminate]. destruct (parse b) eqn:Eb; [|discriminate]. destruct (parse c) eqn:Ec; [|discriminate].
   destruct (parse d) eqn:Ed; [|discriminate]. destruct (parse e) eqn:Ee; [|discriminate]. intros [= <-]. cbn [ex ey ef].
   now rewrite (parse_lenient_ok _ _ Eb), (parse_lenient_ok _ _ Ec), (parse_lenient_ok _ _ Ee).
 Qed.
-Theorem voxel_id_print i : fields_ok i = true -> voxel_id (print_eid i) = Some [ex i; ey i; ef i].
+Theorem voxel_id_print i : fields_ok i = true -> voxel_id (print_eid i) = [ex i; ey i; ef i].
 Proof. intros H. apply voxel_id_spec. now apply parse_print_eid. Qed.
-Theorem voxel_id_panics s : voxel_id s = None <-> (length (split s) < 5)%nat.
+Theorem voxel_id_empty s : voxel_id s = [] <-> (length (split s) < 5)%nat.
 Proof.
   unfold voxel_id. destruct (split s) as [|a [|b [|c [|d [|e r]]]]]; cbn; split; intros H; try reflexivity; try discriminate; try lia.
 Qed.
 Example voxel_id_ignores_errors :
-  voxel_id "1/x/99999999999999999999/1/-99999999999999999999/9/9" = Some [0; 2 ^ 63 - 1; - 2 ^ 63] /\ voxel_id "1/2/3/4" = None.
+  voxel_id "1/x/99999999999999999999/1/-99999999999999999999/9/9" = [0; 2 ^ 63 - 1; - 2 ^ 63] /\ voxel_id "1/2/3/4" = [].
 Proof. vm_compute. split; reflexivity. Qed.
 
 (* =====================================================================================================================
@@ -905,24 +905,28 @@ Proof. apply forall2b_spec. apply check_expand_sound. Qed.
 Theorem expand_seq_model_spec l : Forall2 expand_spec l (expand_seq_model l).
 Proof. induction l as [|s l IH]; cbn; constructor; [apply expand_model_spec|exact IH]. Qed.
 
-(* ---- GetVoxelIDfromSpatialID observed as Some [x; y; f], or None when the call panicked ---- *)
-Definition voxel_spec (s : string) (obs : option (list Z)) : Prop :=
-  forall i, parse_eid s = Some i -> obs = Some [ex i; ey i; ef i].
-Definition check_voxel (s : string) (obs : option (list Z)) : bool :=
+(* ---- GetVoxelIDfromSpatialID observed as a list of integers: [x; y; f] for a well-formed ID, nothing for fewer than five fields ---- *)
+Definition voxel_spec (s : string) (obs : list Z) : Prop :=
+  (forall i, parse_eid s = Some i -> obs = [ex i; ey i; ef i]) /\ ((length (split s) < 5)%nat -> obs = []).
+Definition check_voxel (s : string) (obs : list Z) : bool :=
   match parse_eid s with
-  | Some i => match obs with Some l => list_eqb Z.eqb l [ex i; ey i; ef i] | None => false end
-  | None => true
+  | Some i => list_eqb Z.eqb obs [ex i; ey i; ef i]
+  | None => if Nat.ltb (length (split s)) 5 then list_eqb Z.eqb obs [] else true
   end.
+Lemma parse_eid_arity s i : parse_eid s = Some i -> length (split s) = 5%nat.
+Proof. unfold parse_eid. destruct (split s) as [|a [|b [|c [|d [|e [|g r]]]]]]; try discriminate. reflexivity. Qed.
 Theorem check_voxel_sound s obs : check_voxel s obs = true <-> voxel_spec s obs.
 Proof.
-  unfold check_voxel, voxel_spec. destruct (parse_eid s) as [i|].
-  - destruct obs as [l|].
-    + rewrite Zlist_eqb_spec. split; [intros -> j [= <-]; reflexivity|intros H; specialize (H i eq_refl); congruence].
-    + split; [discriminate|]. intros H. specialize (H i eq_refl). discriminate.
-  - split; [intros _ i; discriminate|reflexivity].
+  unfold check_voxel, voxel_spec. destruct (parse_eid s) as [i|] eqn:E.
+  - rewrite Zlist_eqb_spec. pose proof (parse_eid_arity s i E) as A. split.
+    + intros ->. split; [intros j [= <-]; reflexivity|lia].
+    + intros [H _]. now apply H.
+  - destruct (Nat.ltb_spec (length (split s)) 5) as [L|L].
+    + rewrite Zlist_eqb_spec. split; [intros ->; split; [intros i; discriminate|reflexivity]|intros [_ H]; now apply H].
+    + split; [intros _; split; [intros i; discriminate|lia]|reflexivity].
 Qed.
 Theorem voxel_model_spec s : voxel_spec s (voxel_id s).
-Proof. intros i H. now apply voxel_id_spec. Qed.
+Proof. split; [intros i H; now apply voxel_id_spec|intros H; now apply voxel_id_empty]. Qed.
 
 (* ---- ResetExtendedSpatialID on ONE object, several times in a row: the object after a successful reset is determined by the last string
         alone (no field survives from an earlier value); a failed reset returns an error and (as the code is written: the fields are assigned
